@@ -161,3 +161,102 @@ def promoted_tree(prog, body, constval):
             o = Origins(pb)
             return o.local(0)
     return None
+
+
+# ---------------------------------------------------------------------------------------------
+# path-sensitive exploration (small): enum-variant facts about places and constant bool locals
+# ---------------------------------------------------------------------------------------------
+def explore(body, start, facts=None, removed_edges=(), removed_blocks=(), learn=True, limit=50000):
+    """Blocks reachable from `start` on paths consistent with
+       * `facts`: {place_key: variant} known on entry (and, if `learn`, learnt at discriminant
+         switches on the way), and
+       * constant bools: a local assigned `const true/false` decides a later `switch` on it
+         (the lowering of `matches!`, `&&`, `||`, drop flags).
+    A fact is dropped when the base local of its place is (re)assigned. Returns {block: [states]}."""
+    removed_edges = set(removed_edges)
+    removed_blocks = set(removed_blocks)
+    init = (frozenset((facts or {}).items()), frozenset())
+    seen = {}
+    todo = [(start, init)]
+    n = 0
+    while todo:
+        b, st = todo.pop()
+        if b in removed_blocks:
+            continue
+        if st in seen.setdefault(b, set()):
+            continue
+        seen[b].add(st)
+        n += 1
+        if n > limit:
+            raise RuntimeError("explore: state limit exceeded in %s" % body.npath)
+        vf, bf = dict(st[0]), dict(st[1])
+        blk = body.blocks[b]
+        for s in blk["stmts"]:
+            if s["k"] in ("assign", "setdiscr"):
+                l = s["lhs"]["l"]
+                whole = not s["lhs"]["p"]
+                for k in [k for k in vf if k[0] == l]:
+                    del vf[k]
+                if whole:
+                    bf.pop(l, None)
+                    rv = s.get("rv")
+                    if rv and rv["k"] == "use" and "const" in rv["op"] and rv["op"]["const"]["ty"] == "bool":
+                        v = rv["op"]["const"].get("val", {})
+                        if v.get("kind") == "int":
+                            bf[l] = bool(int(v["bits"]))
+                    elif rv and rv["k"] == "use" and ("copy" in rv["op"] or "move" in rv["op"]):
+                        src = rv["op"].get("copy") or rv["op"].get("move")
+                        if not src["p"] and src["l"] in bf:
+                            bf[l] = bf[src["l"]]
+                    elif rv and rv["k"] == "un" and rv["op"] == "Not":
+                        src = rv["a"].get("copy") or rv["a"].get("move")
+                        if src and not src["p"] and src["l"] in bf:
+                            bf[l] = not bf[src["l"]]
+        t = blk["term"]
+        if t["k"] == "call":
+            l = t["dest"]["l"]
+            for k in [k for k in vf if k[0] == l]:
+                del vf[k]
+            bf.pop(l, None)
+        outs = []
+        if t["k"] == "switch":
+            ve, rv = variant_edges(body, b)
+            o = t["discr"]
+            pl = o.get("copy") or o.get("move")
+            if ve is not None:
+                pk = place_key(rv["place"])
+                if pk in vf:
+                    outs = [(ve[vf[pk]], vf, bf)]
+                else:
+                    by_target = {}
+                    for vname, tg in ve.items():
+                        by_target.setdefault(tg, []).append(vname)
+                    for tg, names in by_target.items():
+                        nvf = dict(vf)
+                        if learn and len(names) == 1:
+                            nvf[pk] = names[0]
+                        outs.append((tg, nvf, bf))
+            elif t["ty"] == "bool" and pl is not None and not pl["p"]:
+                tt, tf = bool_edges(body, b)
+                if pl["l"] in bf:
+                    outs = [((tt if bf[pl["l"]] else tf), vf, bf)]
+                else:
+                    moved = "move" in o
+                    for val, tg in ((True, tt), (False, tf)):
+                        nbf = dict(bf)
+                        if not moved:
+                            nbf[pl["l"]] = val
+                        outs.append((tg, vf, nbf))
+            else:
+                outs = [(s2, vf, bf) for s2 in body.succ(b)]
+        else:
+            outs = [(s2, vf, bf) for s2 in body.succ(b)]
+        for s2, nvf, nbf in outs:
+            if (b, s2) in removed_edges or s2 in removed_blocks:
+                continue
+            todo.append((s2, (frozenset(nvf.items()), frozenset(nbf.items()))))
+    return seen
+
+
+def reach_consistent(body, start, facts, removed_edges=(), removed_blocks=()):  # noqa: F811 (supersedes the simple version)
+    return set(explore(body, start, facts, removed_edges, removed_blocks).keys())
